@@ -1,7 +1,7 @@
 #!/bin/bash
 # usage: par_tier.sh <log> <tier> <parallel> [--no-evidence] [-- ids...]  -- every property's check at the tier, <parallel> at a time
 L=$1; T=$2; P=$3; shift 3; X=""; if [ "${1:-}" = "--no-evidence" ]; then X=$1; shift; fi
-IDS="$*"; [ -z "$IDS" ] && IDS="20 19 09 03 06 18 13 01 12 11 14 02 10 07 08 15 16 17 04 05"
+[ "${1:-}" = "--" ] && shift; IDS="$*"; [ -z "$IDS" ] && IDS="20 19 09 03 06 18 13 01 12 11 14 02 10 07 08 15 16 17 04 05"
 : > $L
 echo $IDS | tr ' ' '\n' | xargs -P $P -I{} bash -c 'S=$(date +%s); /verif/bin/gosym check C{} --tier '$T' '$X' > /tmp/pt_'$T'_C{}.log 2>&1; R=$?; E=$(date +%s); echo "C{} exit=$R $((E-S))s $(grep -E "^PASS|^VIOLATION|^INCONCLUSIVE property" /tmp/pt_'$T'_C{}.log | head -2 | tr "\n" " ")" >> '$L
 echo DONE >> $L
